@@ -283,6 +283,12 @@ func dischargeWith(ctx context.Context, o *Obligation, st *Symtab, cfg *SolverCf
 	o.Stdout = out
 	// Once several obligations of this run have failed the check's verdict is settled; the rest get
 	// the quick stages only, so that a check on a broken tree ends in minutes, not hours.
+	if cfg.NoRetry != nil && cfg.NoRetry(o) {
+		// listed known finding: expected to fail; the slow stages would only burn minutes
+		o.Result = res
+		o.Stdout = "known finding: undecided by the quick stages, slow stages skipped | " + firstLines(out, 2)
+		return
+	}
 	if atomic.LoadInt32(&failedSoFar) >= 8 {
 		o.Result = res
 		o.Stdout = "undecided by the quick stages; the slower stages were skipped because 8 obligations of this run had already failed all stages | " + firstLines(out, 2)
